@@ -40,7 +40,9 @@ def main():
         ok = r['status'] == r['expect']
         miss += 0 if ok else 1
         print('%-4s %-4s %-42s %-10s %-8s %s' % ('ok' if ok else 'MISS', r['prop'], r['name'], r['status'], r.get('source') or '', (r['lines'][0][:90] if r.get('lines') else '')))
-    json.dump(res, open(os.path.join(mutate.VERIF, 'selftest', 'last_results.json'), 'w'), indent=1)
+    out = 'last_results.json' if os.path.basename(cat) == 'catalogue.json' else 'last_' + os.path.basename(cat)
+    if props is None:
+        json.dump(res, open(os.path.join(mutate.VERIF, 'selftest', out), 'w'), indent=1)
     print('entries x properties: %d, not as expected: %d' % (len(res), miss))
     return 1 if miss else 0
 
